@@ -1,6 +1,7 @@
 import WM.Proto
 import WM.Spec.Columns
 import WM.Model.ColumnsField
+import WM.Model.ColumnsBlock
 namespace WM.Drv.C08
 open WM.Proto WM.Columns
 
@@ -200,6 +201,16 @@ def doNumIter (c : NumCode) (default : Int) (doccount : Nat) (adds : List (Nat Ã
     s!"{showList sh it} {showList sh ks} {showList sh rs}"
 
 def handle : List SExp â†’ String
+  | [.atom "cblock", blockbytes, doccount, adds] =>
+    -- `CompressedBlockColumn(blocksize = blockbytes / 1024)`: number of blocks written, then `reader[d]` for every d
+    match blockbytes.nat?, doccount.nat?, parseAdds hex? adds with
+    | some bs, some n, some xs =>
+      let blocks := cbWrite bs xs
+      let rows := (List.range n).map fun d => match cbGet blocks d with
+        | .value v => showHex v
+        | .keyError => "!KeyError"
+      s!"{blocks.length} {showList id rows}"
+    | _, _, _ => "bad-op"
   | [.atom "variter", allow, cutoff, doccount, adds] =>
     match allow.bool?, cutoff.nat?, doccount.nat?, parseAdds hex? adds with
     | some a, some c, some n, some xs => doVarIter a c n xs
